@@ -14,7 +14,9 @@
   stream `val.dec`        J      -> (ok V) | (error validation|fuel)
   stream `val.inhabits`   E      -> (inh b b')   b = inhabits v (typeOf v);  b' = the same on the decoded
                                      serialised forms of value and type (`-` if they do not decode)
-                          (E T)  -> (inh b)      inhabits v T
+                          (E T)  -> (inh b')     inhabits on the decoded serialised forms of v and T (the types of
+                                                 the specification are the serialised ones: an extension type and
+                                                 its opaque form are the same type there)
   stream `std.const`      E      -> (ok V)       the evaluated value with its payload
   stream `val.all`        E      -> (all (type T) (enc J) (rt V) (inh b'))   with `error` for failed parts
   stream `const.load`     E      -> (load (constkind K) (type T) (sig (T…) (T…)) (in K) (out K) (link s t)
@@ -106,14 +108,17 @@ def rtObs (v : Value) : Sexp :=
     | .ok v' => ok (obsValue v')
     | .error e => err (decErrName e)
 
-/-- `inhabits` on the decoded serialised forms of the value and of the type it reports -/
-def inhSerialised (v : Value) : Sexp :=
-  match encVal v, encTy v.typeOf with
+/-- `inhabits` on the decoded serialised forms of the value and of a type -/
+def inhSerialisedAt (v : Value) (t : Ty) : Sexp :=
+  match encVal v, encTy t with
   | .ok j, .ok jt =>
     match decode j, decTy (jsonSize jt + 1) jt with
     | .ok v', .ok t' => Sexp.ofBool (Value.inhabits v' t')
     | _, _ => .atom "-"
   | _, _ => .atom "-"
+
+/-- … of the type it reports -/
+def inhSerialised (v : Value) : Sexp := inhSerialisedAt v v.typeOf
 
 def handleType (p : Sexp) : String := withExpr p fun v => (ok (tySexp v.typeOf)).toString
 
@@ -136,7 +141,7 @@ def handleInhabits (p : Sexp) : String :=
   | .list [e, t] =>
     match exprOfSexp e, tyOfSexp t with
     | some _, some t =>
-      withExpr e fun v => (Sexp.list [.atom "inh", Sexp.ofBool (Value.inhabits v t)]).toString
+      withExpr e fun v => (Sexp.list [.atom "inh", inhSerialisedAt v t]).toString
     | _, _ =>
       withExpr p fun v =>
         (Sexp.list [.atom "inh", Sexp.ofBool (Value.inhabits v v.typeOf), inhSerialised v]).toString
